@@ -11,9 +11,11 @@ package main
 
 import (
 	"context"
+	"errors"
 	"fmt"
 	"os"
 	"path/filepath"
+	"runtime/debug"
 	"strings"
 	"time"
 
@@ -370,6 +372,22 @@ func runScenarios(c *vlib.Ctx, cfgs []config) {
 				}
 			}
 		}
+		for _, cm := range []string{"none", "read"} {
+			lc := config{plain.Backend, plain.Shadow, cm}
+			v, outcome, t := runLongHistory(lc, longHistoryLen(c.Quick()), false)
+			for attempt := 0; attempt < 3 && starved(v); attempt++ {
+				v, outcome, t = runLongHistory(lc, longHistoryLen(c.Quick()), false)
+			}
+			if starved(v) {
+				v = &violation{clause: "ENGINE", detail: "a wall-clock timeout inside portbase fired repeatedly (machine overloaded?): " + v.detail}
+			}
+			trans += t
+			states++
+			if outcome != "" {
+				c.Outcome(outcome)
+			}
+			reportScenario(c, v, scenarioWitness{"long-history", lc, longHistoryLen(c.Quick()), ""})
+		}
 		if plain.Backend == "hashmap" || plain.Backend == "bbolt" {
 			for _, which := range []string{"same-key", "other-key"} {
 				v, outcome, t := runPutDuringFlush(plain, which, false)
@@ -456,9 +474,172 @@ func replayScenario(c *vlib.Ctx, w scenarioWitness) {
 			fmt.Println("replay: no violation")
 		}
 		reportScenario(c, v, w)
+	case "long-history":
+		fmt.Printf("replay: scenario long-history, configuration %v, %d steps\n", w.Config, w.N)
+		v, _, t := runLongHistory(w.Config, w.N, true)
+		c.Add(1, t, 1)
+		if v != nil {
+			fmt.Printf("replay: still violates: %s | %s | %s\n", v.clause, v.site, v.disc)
+		} else {
+			fmt.Println("replay: no violation")
+		}
+		reportScenario(c, v, w)
 	case "condition":
 		replayCondition(c, w.Variant)
 	default:
 		c.EngineError("replay: unknown scenario %q", w.Scenario)
 	}
+}
+
+// ---- long-history scenario: one scripted history far beyond the BFS depth.
+// Three records are stored beforehand and never written again. The script then puts, overwrites and deletes other keys
+// (sorting before, between and after them, value sizes growing and shrinking), each in its own write transaction, and
+// after every step reads the three untouched records, the key just written and an earlier key back through the
+// interface under test (i.e. through its read cache, if it has one) and compares them with the model.
+
+func longHistoryLen(quick bool) int {
+	if quick {
+		return 48
+	}
+	return 200
+}
+
+func runLongHistory(cfg config, n int, verbose bool) (v *violation, outcome string, trans int64) {
+	env, err := getEnv(cfg.Backend, cfg.Shadow)
+	if err != nil {
+		return &violation{clause: "ENGINE", detail: err.Error()}, "", 0
+	}
+	current.Store(running{cfg.String(), "scenario long-history", []string{fmt.Sprint(n)}})
+	progress.Add(1)
+	vtime.SetManual(true, time.Unix(t0, 0))
+	if err := env.wipe(); err != nil {
+		return &violation{clause: "ENGINE", detail: "wipe: " + err.Error()}, "", 0
+	}
+	m := &model{now: t0, recs: map[string]*entry{}}
+	watched := []string{"k-c", "k-m", "k-x"}
+	for i, k := range watched {
+		// large enough that bbolt does not keep the bucket inline in its parent's page (inline buckets may be read from a heap copy)
+		e := entry{content{S: "untouched record " + k + " " + strings.Repeat(string(rune('P'+i)), 400), I: int64(100 + i), F: 0.5, B: true}, meta{C: t0 - 100, M: t0 - 100}}
+		if _, err := env.st.Put(mkRecord(env.name, k, e.c, false, &e.m)); err != nil {
+			return &violation{clause: "ENGINE", detail: "seed: " + err.Error()}, "", 0
+		}
+		ee := e
+		m.recs[k] = &ee
+	}
+	opts := &database.Options{Local: true, Internal: true}
+	if cfg.Cache == "read" {
+		opts.CacheSize = 256 // large enough that nothing is evicted: the untouched records stay cached
+	}
+	iface := database.NewInterface(opts)
+	setCacheClock(iface)
+	x := &exec{cfg: cfg, env: env, iface: iface, now: t0}
+	site := fmt.Sprintf("%s/%s:long-history→Get", cfg.Backend, cfg.Cache)
+	// a read that faults on memory the storage has given back must not kill the process
+	defer debug.SetPanicOnFault(debug.SetPanicOnFault(true))
+	check := func(step int, what string, keys ...string) *violation {
+		for _, k := range keys {
+			var got result
+			p, stack := vlib.Catch(func() { got = x.get(k) })
+			trans++
+			if p != nil {
+				return &violation{"never-panics", site, vlib.PanicSite(stack), fmt.Sprintf("step %d (%s): Get(%s) panicked: %v", step, what, k, p)}
+			}
+			want := modelGet(m, k)
+			if verbose && os.Getenv("C02_DEBUG") != "" {
+				fmt.Printf("    Get(%s) = %.120s\n", k, got.String())
+			}
+			if d := diffResult(got, want); d != "" {
+				return &violation{"get-returns-latest-or-notfound", site, d,
+					fmt.Sprintf("scripted history, step %d (%s): Get(%s) = %v, the reference map says %v (the records k-c, k-m, k-x were stored beforehand and are never written)", step, what, k, got, want)}
+			}
+		}
+		return nil
+	}
+	if v := check(0, "first read of the untouched records", watched...); v != nil {
+		return v, "", trans
+	}
+	var written []string
+	for i := 0; i < n; i++ {
+		var what, key string
+		var opErr error
+		p, stack := vlib.Catch(func() {
+			switch {
+			case i%7 == 6 && len(written) > 2: // delete an earlier key
+				key = written[len(written)-3]
+				what = "Delete(" + key + ")"
+				opErr = iface.Delete(x.full(key))
+				if e := m.visible(key); e != nil {
+					e.m.update(m.now)
+					e.m.D = m.now
+				} else if opErr != nil && errors.Is(opErr, database.ErrNotFound) {
+					opErr = nil
+				}
+			case i%5 == 4 && len(written) > 0: // overwrite an earlier key with a value of another size
+				key = written[(i*7)%len(written)]
+				ct := content{S: strings.Repeat(string(rune('A'+i%26)), 24*((i*5)%37+1)), I: int64(i), F: float64(i) / 4, B: i%2 == 0}
+				what = fmt.Sprintf("Put(%s, %d bytes) overwriting", key, len(ct.S))
+				opErr = iface.Put(mkRecord(env.name, key, ct, i%2 == 0, nil))
+				e := &entry{c: ct}
+				e.m.update(m.now)
+				m.recs[key] = e
+			default: // a new key before / between / after the untouched records
+				key = fmt.Sprintf("k-%c%03d", "abdnyz"[i%6], i)
+				ct := content{S: strings.Repeat(string(rune('a'+i%26)), 16*(i%40+1)), I: int64(i), F: float64(i) / 2, B: i%3 == 0}
+				what = fmt.Sprintf("Put(%s, %d bytes)", key, len(ct.S))
+				opErr = iface.Put(mkRecord(env.name, key, ct, i%2 == 0, nil))
+				e := &entry{c: ct}
+				e.m.update(m.now)
+				m.recs[key] = e
+				written = append(written, key)
+			}
+		})
+		trans++
+		if p != nil {
+			return &violation{"never-panics", strings.Replace(site, "→Get", "", 1), vlib.PanicSite(stack), fmt.Sprintf("step %d (%s) panicked: %v", i+1, what, p)}, "", trans
+		}
+		if opErr != nil {
+			return &violation{"operation-result-equals-model", strings.Replace(site, "→Get", "", 1), "ok→error", fmt.Sprintf("scripted history, step %d (%s) failed: %v", i+1, what, opErr)}, "", trans
+		}
+		if verbose {
+			fmt.Printf("  step %d: %s\n", i+1, what)
+		}
+		keys := append(append([]string{}, watched...), key)
+		if len(written) > 1 {
+			keys = append(keys, written[(i*3)%len(written)])
+		}
+		if v := check(i+1, what, keys...); v != nil {
+			return v, "", trans
+		}
+		if i%12 == 11 {
+			vtime.AdvanceManual(time.Second)
+			x.now++
+			m.now++
+		}
+	}
+	got, qerr, dup := runQuery(x, qdef{name: "prefix ''", pclass: "empty-prefix"})
+	trans++
+	qsite := fmt.Sprintf("%s/%s:long-history→Query", cfg.Backend, cfg.Cache)
+	if qerr != "" || dup != "" {
+		return &violation{"query-yields-exactly-the-matching-visible-records", qsite, "failed:" + qerrClass(qerr), "query after the scripted history: " + qerr + dup}, "", trans
+	}
+	for k := range got {
+		if m.visible(k) == nil {
+			return &violation{"query-yields-exactly-the-matching-visible-records", qsite, "extra-records", fmt.Sprintf("after the scripted history the query for everything yields %q, which is not visible in the reference map", k)}, "", trans
+		}
+	}
+	for k, e := range m.recs {
+		if m.visible(k) == nil {
+			continue
+		}
+		g, ok := got[k]
+		switch {
+		case !ok:
+			return &violation{"query-yields-exactly-the-matching-visible-records", qsite, "missing-records", fmt.Sprintf("after the scripted history the query for everything misses %q", k)}, "", trans
+		case g.bad != "" || g.c != e.c:
+			return &violation{"query-yields-exactly-the-matching-visible-records", qsite, "record-with-other-data", fmt.Sprintf("after the scripted history the query yields %v for %q, the reference map says %+v", g, k, e.c)}, "", trans
+		case g.m != e.m:
+			return &violation{"query-yields-exactly-the-matching-visible-records", qsite, "record-with-other-metadata", fmt.Sprintf("after the scripted history the query yields %v for %q, the reference map says %v", g, k, e.m)}, "", trans
+		}
+	}
+	return nil, "long-history:completed", trans
 }
